@@ -728,6 +728,12 @@ func extraCommand(cmd string, args []string) bool {
 	case "agenttable":
 		runAgentTable(args)
 		return true
+	case "hostilepool":
+		runHostilePool(args)
+		return true
+	case "hostileagent":
+		runHostileAgent(args)
+		return true
 	case "agentcli":
 		runAgentCLI(args)
 		return true
